@@ -25,6 +25,16 @@ Qed.
 Lemma missed_key_inj a i j : 0 <= i < 256 ^ 8 -> 0 <= j < 256 ^ 8 -> missed_key a i = missed_key a j -> i = j.
 Proof. unfold missed_key. intros Hi Hj E. apply app_inv_head in E. apply (le_bytes_inj 8); auto. Qed.
 
+Lemma missed_key_inj2 a b i j : length a = length b -> 0 <= i < 256 ^ 8 -> 0 <= j < 256 ^ 8 ->
+  missed_key a i = missed_key b j -> a = b /\ i = j.
+Proof.
+  unfold missed_key. intros L Hi Hj E.
+  assert (A : a = b).
+  { pose proof (f_equal (firstn (length a)) E) as F. rewrite firstn_app, Nat.sub_diag, firstn_all in F. cbn [firstn] in F.
+    rewrite app_nil_r in F. rewrite L, firstn_app, Nat.sub_diag, firstn_all in F. cbn [firstn] in F. rewrite app_nil_r in F. exact F. }
+  subst b. split; [reflexivity|]. apply app_inv_head in E. apply (le_bytes_inj 8); auto.
+Qed.
+
 (* the validator's ring, read from the state *)
 Definition bit_at (m : amap bool) (a : bytes) (i : Z) : bool := match aget m (missed_key a i) with Some b => b | None => false end.
 Definition ring_of (m : amap bool) (a : bytes) (si : signinfo) : ring :=
